@@ -7,6 +7,7 @@ package main
 //     detector's reports are parsed from its log and become failures (validation of the lockset table and failing-schedule search).
 
 import (
+	"reflect"
 	"bytes"
 	"context"
 	"fmt"
@@ -233,6 +234,53 @@ func c09Workload(r *Run, rounds int, shareData bool, mutateFiles bool) (calls in
 				}
 				mu.Unlock()
 			}(g)
+		}
+		close(start)
+		cw.Wait()
+	}
+	// first use of a STRUCT TYPE: rows of a type the process has never resolved a path on (a fresh type per round, 40 tagged fields),
+	// addressed by the JSON tag of their last field, rendered by every goroutine at once - whatever the engine remembers per type is built
+	// under contention here
+	for round := 0; round < coldRounds+3; round++ {
+		var fields []reflect.StructField
+		for i := 0; i < 40; i++ {
+			fields = append(fields, reflect.StructField{Name: fmt.Sprintf("F%02d", i), Type: reflect.TypeOf(""),
+				Tag: reflect.StructTag(fmt.Sprintf(`json:"f%02d_%d_%d,omitempty" yaml:"f%02d" db:"col_%02d_of_the_row"`, i, round, seedBase%1000003, i, i))})
+		}
+		rt := reflect.StructOf(fields)
+		rows := reflect.MakeSlice(reflect.SliceOf(rt), 3, 3)
+		want := ""
+		for k := 0; k < 3; k++ {
+			rows.Index(k).Field(39).SetString(fmt.Sprintf("row-%d", k))
+			want += fmt.Sprintf("<i>[row-%d]</i>\n", k)
+		}
+		tag := fmt.Sprintf("f39_%d_%d", round, seedBase%1000003)
+		src := `<i v-for="r in rows">[{{ r.` + tag + ` }}]</i>`
+		data := map[string]any{"rows": rows.Interface()}
+		start := make(chan struct{})
+		var cw sync.WaitGroup
+		for g := 0; g < n; g++ {
+			cw.Add(1)
+			go func() {
+				defer cw.Done()
+				<-start
+				var buf bytes.Buffer
+				var err error
+				func() {
+					defer func() {
+						if e := recover(); e != nil {
+							err = fmt.Errorf("panic: %v", e)
+						}
+					}()
+					err = base.New().Fill(data).RenderString(context.Background(), &buf, src)
+				}()
+				mu.Lock()
+				calls++
+				if (err != nil || buf.String() != want) && len(mismatches) < 20 {
+					mismatches = append(mismatches, fmt.Sprintf("first use of a struct type (40 tagged fields, round %d): got %q/%v, alone %q", round, buf.String(), err, want))
+				}
+				mu.Unlock()
+			}()
 		}
 		close(start)
 		cw.Wait()
